@@ -201,6 +201,15 @@ var c18Numeric = hx.Define("c18.numeric-grid", func(c *c18NumCase, s *hx.Sub) *h
 	switch c.Op {
 	case "print":
 		src = "{{ a }}|{{ a | plus: 0 }}|{{ a | abs }}|{{ a | ceil }}|{{ a | round }}|{% case a %}{% when b %}W{% else %}E{% endcase %}"
+	// a number used where an integer is expected
+	case "index":
+		src = "{{ arr[a] }}|{{ arr[b] }}|{% assign i = a %}{{ arr[i] }}"
+	case "range":
+		src = "{% for i in (a..a) %}{{ i }}{% endfor %}|{{ (b..b) | join }}|{{ (a..a) | size }}"
+	case "loopmod":
+		src = "{% for x in arr limit: a %}{{ x }}{% endfor %}|{% for x in arr offset: b %}{{ x }}{% endfor %}|{% tablerow x in arr cols: a %}{{ x }}{% endtablerow %}"
+	case "intarg":
+		src = "{{ 'abcdef' | slice: a }}|{{ 'abcdef' | slice: 1, b }}|{{ 'abcdef' | truncate: b, '' }}|{{ 'a b c d' | truncatewords: b }}|{{ 1.2345 | round: a }}"
 	case "==", "!=", "<", ">", "<=", ">=":
 		src = "{{ a " + c.Op + " b }}|{% if a " + c.Op + " b %}T{% else %}F{% endif %}|{% assign l = '' | split: '' | concat: wrap %}{{ l contains b }}"
 	default:
@@ -214,7 +223,7 @@ var c18Numeric = hx.Define("c18.numeric-grid", func(c *c18NumCase, s *hx.Sub) *h
 	}
 	mk := func(ra, rb string, da, db bool) map[string]any {
 		a := c18Num(c.A, ra, da)
-		return map[string]any{"a": a.Realise(), "b": c18Num(c.B, rb, db).Realise(), "wrap": []any{c18Num(c.A, ra, da).Realise()}}
+		return map[string]any{"a": a.Realise(), "b": c18Num(c.B, rb, db).Realise(), "wrap": []any{c18Num(c.A, ra, da).Realise()}, "arr": []any{10, 20, 30, 40}}
 	}
 	o0 := hx.Render(src, mk(canonRep(c.A, c.RepA), canonRep(c.B, c.RepB), false, false))
 	o1 := hx.Render(src, mk(c.RepA, c.RepB, c.DropA, c.DropB))
@@ -265,6 +274,20 @@ func c18Wrap(s *hx.Spec, how string) (*hx.Spec, bool) {
 		for _, e := range c.E {
 			e.Drop++
 		}
+	default:
+		// "rep:<name>": the array as a typed slice (of any integer width), a fixed array ...
+		rep, isRep := strings.CutPrefix(how, "rep:")
+		if !isRep || c.K != "arr" || c.R != "" || c.Drop > 0 || c.Ptr {
+			return nil, false
+		}
+		found := false
+		for _, r := range c.ArrReps() {
+			found = found || r == rep
+		}
+		if !found || rep == "range" {
+			return nil, false
+		}
+		c.R = rep
 	}
 	return c, true
 }
@@ -432,7 +455,7 @@ func TestC18(t *testing.T) {
 		}
 	})
 
-	num := c18Numeric.On(col, "exhaustive: values {0,1,2,3,7,100,-1,-8,2.5,-0.5,4.0} x every numeric representation that holds them exactly (int int8..int64 uint uint8..uint64 float32 float64), with and without a Drop, as receiver and as argument of print / plus minus times divided_by modulo / the six comparison operators / case-when / array contains; metamorphic oracle: same result as with int / float64 operands. Distinct by construction", true)
+	num := c18Numeric.On(col, "exhaustive: values {0,1,2,3,7,100,-1,-8,2.5,-0.5,4.0} x every numeric representation that holds them exactly (int int8..int64 uint uint8..uint64 float32 float64), with and without a Drop, as receiver and as argument of print / plus minus times divided_by modulo / the six comparison operators / case-when / array contains / the positions that expect an integer (index, range bound, limit, offset, cols, slice, truncate, truncatewords, round); metamorphic oracle: same result as with int / float64 operands. Distinct by construction", true)
 	vals := []float64{0, 1, 2, 3, 7, 100, -1, -8, 2.5, -0.5, 4.0}
 	reps := append(append([]string{}, hx.IntReps...), "float32", "float64")
 	fits := func(v float64, rep string) bool {
@@ -444,7 +467,7 @@ func TestC18(t *testing.T) {
 		}
 		return v == math.Trunc(v) && hx.IntFits(int64(v), rep)
 	}
-	ops := []string{"print", "plus", "minus", "times", "divided_by", "modulo", "==", "!=", "<", ">", "<=", ">="}
+	ops := []string{"print", "index", "range", "loopmod", "intarg", "plus", "minus", "times", "divided_by", "modulo", "==", "!=", "<", ">", "<=", ">="}
 	idx := 0
 	for _, op := range ops {
 		for _, a := range vals {
@@ -476,12 +499,12 @@ func TestC18(t *testing.T) {
 	if err != nil {
 		t.Fatal(err)
 	}
-	flt := c18Filter.On(col, fmt.Sprintf("exhaustive: every standard filter (%d) x receiver in the plain universe, and x (receiver, argument) pairs drawn from a reduced universe, with the receiver or the argument wrapped in a Drop, a nested Drop, a pointer, or (arrays) with every element wrapped in a Drop; metamorphic oracle: same result as unwrapped (type/inspect/json, which report the Go value by design, are unspecified). Distinct by construction", len(si.Filters)), true)
+	flt := c18Filter.On(col, fmt.Sprintf("exhaustive: every standard filter (%d) x receiver in the plain universe, and x (receiver, argument) pairs drawn from a reduced universe, with the receiver or the argument wrapped in a Drop, a nested Drop, a pointer, (arrays) with every element wrapped in a Drop, or (arrays) as a typed slice of any integer width or a fixed array - in every position, also where a string or a number is expected; metamorphic oracle: same result as unwrapped (type/inspect/json, which report the Go value by design, are unspecified). Distinct by construction", len(si.Filters)), true)
 	pu := plainUniverse()
 	small := []string{"nil", "1", "2", "-1", "2.5", `"abc"`, `"a"`, `""`, "[3,1,2]", "[nil,1,nil]", "[mixed]", "[maps]", "{a:1,b:2}", "true"}
 	for _, f := range si.Filters {
 		for _, r := range pu {
-			for _, w := range []string{"drop", "drop2", "ptr", "elemdrop"} {
+			for _, w := range []string{"drop", "drop2", "ptr", "elemdrop", "rep:typed", "rep:array", "rep:typed:int8", "rep:typed:int32", "rep:typed:int64", "rep:typed:uint16", "rep:typed:uint", "rep:typed:float32"} {
 				idx++
 				if env.Mine(idx) {
 					flt.Run(&c18FilterCase{Filter: f, R: r.Name, Wrap: w})
@@ -490,7 +513,7 @@ func TestC18(t *testing.T) {
 		}
 		for _, r := range small {
 			for _, a := range small {
-				for _, w := range []string{"drop", "ptr", "elemdrop"} {
+				for _, w := range []string{"drop", "ptr", "elemdrop", "rep:typed", "rep:array", "rep:typed:int32", "rep:typed:uint16"} {
 					for _, onArg := range []bool{false, true} {
 						idx++
 						if env.Mine(idx) {
